@@ -119,6 +119,22 @@ Proof.
   split; [vm_compute; reflexivity|]. vm_compute. discriminate.
 Qed.
 
+(* ---- composition with C02: for EVERY configuration the parser model accepts (C02_iff: exactly the
+   documented ones), every advertising interface of it satisfies what C03 needs -- so the hypotheses
+   of C03_wire_ok / C03 are not an extra assumption but a consequence of acceptance.  Remaining
+   hypotheses are the property's own quantifier assumptions (sizes_ok, sys_wf, clock_okb) and the
+   token convention for URIs (captive_lens_ok: C03's tokens carry the byte length). *)
+From CR Require Model.Config Model.ConfigWf Proofs.Bridge Properties.C02.
+Theorem C03_accepted : forall raw c i s r,
+  Config.lex_wfb raw = true -> Config.parse raw = Ok c -> In i (fst c) -> if_monitor i = false ->
+  Bridge.captive_lens_ok i -> sizes_ok i = true -> sys_wf s -> clock_okb i s = true ->
+  build i s = Ok r -> wire_ok r.
+Proof.
+  intros raw c i s r W P Hin Hm Hc Hs Hsys Hclk Hb.
+  pose proof (C02.C02_cfg_wf raw c W P) as Hwf. rewrite Forall_forall in Hwf.
+  exact (built_wire_ok i s r (Bridge.cfg_bridge i (Hwf i Hin) Hm Hc) Hs Hsys Hclk Hb).
+Qed.
+
 Print Assumptions C03_wire_ok.
 Print Assumptions C03_wire_ok_meaning.
 Print Assumptions codec_roundtrip.
@@ -129,3 +145,4 @@ Print Assumptions C03_ndp_ok_sufficient.
 Print Assumptions C03_roundup_refuted.
 Print Assumptions C03_oversize_refuted.
 Print Assumptions C03_full_refuted.
+Print Assumptions C03_accepted.
